@@ -256,21 +256,11 @@ Definition mtrack (m : matcher) (k : hkey) : track :=
 
 Definition ekey (m : matcher) (e : sevent) : hkey := if is_part_kind m then KP (e_pid e) else KS (e_sid e).
 Definition kkind (m : matcher) (k : hkey) : bool := match k with KP _ => is_part_kind m | KS _ => negb (is_part_kind m) end.
-Definition kpid (c : sbcfg) (k : hkey) : nat := match k with KP p => p | KS s => spid c s end.
 
 Definition fs_hyd (fs : fromspec) : bool := match fs with FLatest => true | FMap _ None => true | _ => false end.
 Definition hyd (m : matcher) : bool :=
   match m with MAllP fs | MParts _ fs | MStreams _ fs => fs_hyd fs | _ => true end.
 
-Definition fs_wf (fs : fromspec) : Prop := match fs with FMap m _ => NoDup (map fst m) | _ => True end.
-(* a matcher as the ESUB/EPSUB parsers build it: no duplicate ids, explicit stream positions only for subscribed streams *)
-Definition wf_matcher (m : matcher) : Prop :=
-  match m with
-  | MAllP fs => fs_wf fs
-  | MParts ps fs => NoDup ps /\ fs_wf fs
-  | MStreams ss fs => NoDup ss /\ fs_wf fs /\ match fs with FMap m fb => fb = None /\ incl (map fst m) ss | _ => True end
-  | _ => True
-  end.
 
 Lemma hkey_eqb_eq a b : hkey_eqb a b = true <-> a = b.
 Proof.
@@ -790,3 +780,977 @@ Proof.
 Qed.
 
 End Klog.
+
+Lemma slice_uncons {A} (l : list A) a b x t : slice l a b = x :: t -> a < b /\ nth_error l a = Some x /\ t = slice l (S a) b.
+Proof.
+  unfold slice. intros H. destruct (b - a) as [|n] eqn:E; [discriminate|]. split; [lia|].
+  destruct (skipn a l) as [|y r] eqn:Es; [discriminate|]. cbn in H. injection H as -> <-.
+  assert (Hn : nth_error l a = Some x).
+  { rewrite <- (Nat.add_0_r a). rewrite <- nth_error_skipn. rewrite Es. reflexivity. }
+  split; [exact Hn|]. rewrite (skipn_nth_cons _ _ _ Hn) in Es. injection Es as <-. replace (b - S a) with n by lia. reflexivity.
+Qed.
+
+Lemma slice_one {A} (l : list A) b x : nth_error l b = Some x -> slice l b (S b) = [x].
+Proof. intros H. rewrite (slice_cons _ _ _ _ H) by lia. rewrite slice_nil. reflexivity. Qed.
+
+(* ================================================================== the invariant *)
+Definition eff_q (u : subst) : list sevent := match u_hold u with Some e => e :: u_q u | None => u_q u end.
+Definition pfilter (p : nat) (q : list sevent) : list sevent := filter (fun e => e_pid e =? p) q.
+Definition pend_of (ph : phase) : list hiter := match ph with PHist pend _ => pend | PLive => [] end.
+Definition dconsec (l : list nat) : Prop := exists a, l = seq a (length l).
+Definition gap_of (d : deliv) : nat := match d_ack d with Some a => d_cur d - a | None => d_cur d + 1 end.
+
+Section Inv.
+Variable c : sbcfg.
+
+Record keyinv (u : subst) (k : hkey) : Prop := {
+  ki_consec : dconsec (dpos k (u_out u));
+  ki_next : dpos k (u_out u) <> [] -> mtrack (u_m u) k = TFrom (S (last (dpos k (u_out u)) 0));
+  ki_init : dpos k (u_out u) = [] -> kpid c k < c_np c -> mtrack (u_m u) k = mtrack (u_m0 u) k;
+  ki_start : forall n, mtrack (u_m0 u) k = TFrom n -> dpos k (u_out u) <> [] -> hd 0 (dpos k (u_out u)) = n
+}.
+
+Record outinv (st : sbstate) (u : subst) : Prop := {
+  i_kind : is_part_kind (u_m u) = is_part_kind (u_m0 u);
+  i_hyd : hyd (u_m u) = true;
+  i_wf : wf_matcher (u_m u);
+  i_cur : u_cur u = length (u_out u);
+  i_out : Forall (fun d => e_seq (d_ev d) < d_wm d /\ d_wm d <= sb_wm st (e_pid (d_ev d)) /\ gap_of d <= u_win u /\
+                           nth_error (sb_log st (e_pid (d_ev d))) (e_seq (d_ev d)) = Some (d_ev d)) (u_out u);
+  i_dcur : forall i d, nth_error (rev (u_out u)) i = Some d -> d_cur d = i;
+  i_keys : forall k, kkind (u_m u) k = true -> keyinv u k
+}.
+
+Definition phinv (st : sbstate) (u : subst) : Prop :=
+  match u_ph u with
+  | PHist pend cur =>
+      pend <> [] /\ NoDup (map h_key pend) /\ u_hold u = None /\
+      (forall it, In it pend -> kkind (u_m u) (h_key it) = true /\ mtrack (u_m u) (h_key it) = TFrom (h_pos it) /\
+                                h_end it <= length (klog c st (h_key it))) /\
+      (forall k b, cur = Some (k, b) -> exists it, find_it k pend = Some it /\ b <= h_end it)
+  | PLive => True
+  end.
+
+Definition holdinv (st : sbstate) (u : subst) : Prop :=
+  forall e, u_hold u = Some e ->
+    has_seen (u_m u) e = false /\ nth_error (sb_log st (e_pid e)) (e_seq e) = Some e /\ e_seq e < sb_nb st (e_pid e) /\
+    forall n, mtrack (u_m u) (ekey (u_m u) e) = TFrom n -> kpos (ekey (u_m u) e) e = n.
+
+Definition qinv (st : sbstate) (u : subst) : Prop :=
+  forall p, exists a, a <= sb_nb st p /\ pfilter p (u_q u) = slice (sb_log st p) a (sb_nb st p).
+
+Definition bound_of (u : subst) (k : hkey) (n : nat) : nat :=
+  match find_it k (pend_of (u_ph u)) with Some it => h_end it | None => n end.
+
+Definition qeinv (st : sbstate) (u : subst) : Prop :=
+  u_lagn u = 0 -> forall p, exists a, a <= sb_nb st p /\ pfilter p (eff_q u) = slice (sb_log st p) a (sb_nb st p) /\
+    forall k n, kkind (u_m u) k = true -> kpid c k = p -> mtrack (u_m u) k = TFrom n -> cover c st k a (bound_of u k n).
+
+Record subinv (st : sbstate) (u : subst) : Prop := {
+  i_o : outinv st u;
+  i_ph : phinv st u;
+  i_hold : holdinv st u;
+  i_q : qinv st u;
+  i_qe : qeinv st u
+}.
+
+Definition sbinv (st : sbstate) : Prop :=
+  logwf c st /\ wmwf st /\ forall u, sb_sub st = Some u -> subinv st u.
+
+(* ---- dpos after one more record *)
+Lemma dpos_cons k d out :
+  dpos k (d :: out) = dpos k out ++ (if dkey_match k (d_ev d) then [kpos k (d_ev d)] else []).
+Proof.
+  unfold dpos. cbn [rev]. rewrite filter_app, map_app. cbn [filter]. destruct (dkey_match k (d_ev d)); reflexivity.
+Qed.
+
+Lemma dkey_match_other m e k : kkind m k = true -> k <> ekey m e -> dkey_match k e = false.
+Proof.
+  unfold kkind, ekey. destruct k as [p|s]; destruct (is_part_kind m); cbn; intros Hk Hne; try discriminate.
+  - destruct (e_pid e =? p) eqn:E; [apply Nat.eqb_eq in E; congruence|reflexivity].
+  - destruct (e_sid e =? s) eqn:E; [apply Nat.eqb_eq in E; congruence|reflexivity].
+Qed.
+
+Lemma dkey_match_ekey m e : dkey_match (ekey m e) e = true.
+Proof. unfold ekey. destruct (is_part_kind m); cbn; apply Nat.eqb_refl. Qed.
+
+Lemma win_open_gap u : win_open u = true -> gap_of (mkD (mkSev 0 0 0 0) 0 (u_cur u) (u_ack u)) <= u_win u.
+Proof. unfold win_open, gap_of. cbn. destruct (u_ack u); intros H; apply Nat.leb_le in H; exact H. Qed.
+
+(* the common part of every send (history or live) *)
+Lemma deliver_outinv st u e m' ph h :
+  outinv st u -> win_open u = true ->
+  e_seq e < sb_wm st (e_pid e) ->
+  nth_error (sb_log st (e_pid e)) (e_seq e) = Some e ->
+  kpid c (ekey (u_m u) e) < c_np c ->
+  mtrack (u_m u) (ekey (u_m u) e) <> TIgnore ->
+  (forall n, mtrack (u_m u) (ekey (u_m u) e) = TFrom n -> kpos (ekey (u_m u) e) e = n) ->
+  is_part_kind m' = is_part_kind (u_m u) -> hyd m' = true -> wf_matcher m' ->
+  (forall k, kkind (u_m u) k = true ->
+             mtrack m' k = if hkey_eqb k (ekey (u_m u) e) then TFrom (S (kpos (ekey (u_m u) e) e)) else mtrack (u_m u) k) ->
+  outinv st (deliver st u e m' ph h).
+Proof.
+  intros [Ikind Ihyd Iwf Icur Iout Idcur Ikeys] Hwin Hconf Hinlog Hnp Hnig Hpos Hk' Hh' Hw' Ht'.
+  set (k0 := ekey (u_m u) e) in *.
+  constructor; cbn.
+  - congruence.
+  - exact Hh'.
+  - exact Hw'.
+  - rewrite Icur. reflexivity.
+  - constructor; [|exact Iout]. cbn. split; [exact Hconf|]. split; [lia|]. split; [|exact Hinlog].
+    pose proof (win_open_gap u Hwin) as G. unfold gap_of in *. cbn in *. exact G.
+  - intros i d Hn. destruct (Nat.lt_ge_cases i (length (rev (u_out u)))) as [Hlt|Hge].
+    + rewrite nth_error_app1 in Hn by exact Hlt. apply Idcur. exact Hn.
+    + rewrite nth_error_app2 in Hn by exact Hge. destruct (i - length (rev (u_out u))) as [|j] eqn:E; cbn in Hn; [|destruct j; discriminate].
+      injection Hn as <-. cbn. rewrite rev_length in *. lia.
+  - intros k Hk. assert (Hk0 : kkind (u_m u) k = true).
+    { unfold kkind in *. rewrite Hk' in Hk. exact Hk. }
+    specialize (Ikeys k Hk0). destruct Ikeys as [Kc Kn Ki Ks].
+    specialize (Ht' k Hk0).
+    destruct (hkey_dec k k0) as [->|Hne].
+    + (* the key of the record *)
+      rewrite hkey_eqb_refl in Ht'.
+      assert (Hd : dpos k0 (mkD e (sb_wm st (e_pid e)) (u_cur u) (u_ack u) :: u_out u) = dpos k0 (u_out u) ++ [kpos k0 e]).
+      { rewrite dpos_cons. cbn [d_ev]. unfold k0. rewrite dkey_match_ekey. reflexivity. }
+      constructor; cbn [u_out u_m u_m0 deliver]; rewrite Hd.
+      * destruct (dpos k0 (u_out u)) as [|x l] eqn:El.
+        { exists (kpos k0 e). reflexivity. }
+        destruct Kc as [a Ha]. specialize (Kn ltac:(discriminate)). apply Hpos in Kn.
+        exists a. rewrite app_length. cbn [length]. rewrite Nat.add_1_r. rewrite seq_snoc. f_equal; [exact Ha|].
+        rewrite Kn. rewrite Ha at 1. rewrite last_seq by (cbn; lia). cbn [length]. f_equal. lia.
+      * intros _. rewrite last_snoc. exact Ht'.
+      * intros H. destruct (dpos k0 (u_out u)); discriminate.
+      * intros n Hn _. destruct (dpos k0 (u_out u)) as [|x l] eqn:El.
+        { cbn. apply Hpos. rewrite <- Hn. apply Ki; [reflexivity|exact Hnp]. }
+        cbn. apply (Ks n Hn). discriminate.
+    + assert (Hm : dkey_match k e = false) by (eapply dkey_match_other; eassumption).
+      assert (Hd : dpos k (mkD e (sb_wm st (e_pid e)) (u_cur u) (u_ack u) :: u_out u) = dpos k (u_out u)).
+      { rewrite dpos_cons. cbn [d_ev]. rewrite Hm. apply app_nil_r. }
+      apply hkey_eqb_neq in Hne. rewrite Hne in Ht'.
+      constructor; cbn [u_out u_m u_m0 deliver]; rewrite Hd; rewrite ?Ht'; assumption.
+Qed.
+
+Lemma pend_of_mk_phase l cur : pend_of (mk_phase l cur) = l.
+Proof. destruct l; reflexivity. Qed.
+
+Lemma pfilter_tl L p l a b :
+  pfilter p l = slice L a b -> a <= b -> exists a', a <= a' /\ a' <= b /\ pfilter p (tl l) = slice L a' b.
+Proof.
+  intros H Hab. destruct l as [|h r]; cbn in *; [exists a; auto|].
+  destruct (e_pid h =? p).
+  - symmetry in H. apply slice_uncons in H. destruct H as (Hlt & _ & ->). exists (S a). repeat split; lia || reflexivity.
+  - exists a. auto.
+Qed.
+
+Lemma pfilter_app p l x : pfilter p (l ++ x) = pfilter p l ++ pfilter p x.
+Proof. apply filter_app. Qed.
+
+Lemma kkind_match_ekey m k e : kkind m k = true -> dkey_match k e = true -> k = ekey m e.
+Proof.
+  intros Hk Hm. destruct (hkey_dec k (ekey m e)) as [|Hne]; [assumption|].
+  rewrite (dkey_match_other m e k Hk Hne) in Hm. discriminate.
+Qed.
+
+(* the invariant of the subscription only looks at the logs, watermarks and broadcast positions *)
+Lemma subinv_glob st st' u :
+  sb_log st' = sb_log st -> sb_wm st' = sb_wm st -> sb_nb st' = sb_nb st -> subinv st u -> subinv st' u.
+Proof.
+  destruct st as [l w n b s], st' as [l' w' n' b' s']. cbn. intros -> -> -> [[I1 I2 I3 I4 I5 I6 I7] Iph Ih Iq Iqe].
+  constructor; [constructor; assumption|exact Iph|exact Ih|exact Iq|exact Iqe].
+Qed.
+
+Lemma keyinv_eq u u' k :
+  u_out u' = u_out u -> u_m u' = u_m u -> u_m0 u' = u_m0 u -> keyinv u k -> keyinv u' k.
+Proof.
+  intros Ho Hm H0 [K1 K2 K3 K4]. constructor; rewrite ?Ho, ?Hm, ?H0; assumption.
+Qed.
+
+Lemma outinv_eq st u u' :
+  u_out u' = u_out u -> u_m u' = u_m u -> u_m0 u' = u_m0 u -> u_win u' = u_win u -> u_cur u' = u_cur u ->
+  outinv st u -> outinv st u'.
+Proof.
+  intros Ho Hm H0 Hw Hc [I1 I2 I3 I4 I5 I6 I7].
+  constructor; rewrite ?Ho, ?Hm, ?H0, ?Hw, ?Hc; try assumption.
+  intros k Hk. eapply keyinv_eq; try eassumption. apply I7. exact Hk.
+Qed.
+
+Hypothesis Hbrk : c_brk c = true.
+
+Lemma subinv_set_ph st u ph :
+  subinv st u -> phinv st (u_set_ph u ph) ->
+  (forall k n a, kkind (u_m u) k = true -> mtrack (u_m u) k = TFrom n -> a <= sb_nb st (kpid c k) ->
+                 cover c st k a (bound_of u k n) -> cover c st k a (bound_of (u_set_ph u ph) k n)) ->
+  subinv st (u_set_ph u ph).
+Proof.
+  intros [Io Iph Ih Iq Iqe] Hph Hcov.
+  constructor; [eapply outinv_eq; try exact Io; reflexivity|exact Hph|exact Ih|exact Iq|].
+  intros Hl p. destruct (Iqe Hl p) as (a & Ha & Hs & Hc). exists a. split; [exact Ha|]. split; [exact Hs|].
+  intros k n Hk Hp Ht. apply Hcov; try assumption; [subst p; exact Ha|]. apply Hc; assumption.
+Qed.
+
+Lemma subinv_set_ack st u a : subinv st u -> subinv st (u_set_ack u a).
+Proof.
+  intros [Io Iph Ih Iq Iqe].
+  constructor; [eapply outinv_eq; try exact Io; reflexivity|exact Iph|exact Ih|exact Iq|exact Iqe].
+Qed.
+
+(* OHistBatch, and OHistEvent when the batch is used up: only the current batch changes *)
+Lemma subinv_set_cur st u pend cur cur' :
+  subinv st u -> u_ph u = PHist pend cur ->
+  (forall k b, cur' = Some (k, b) -> exists it, find_it k pend = Some it /\ b <= h_end it) ->
+  subinv st (u_set_ph u (PHist pend cur')).
+Proof.
+  intros Hi Hph Hc. apply subinv_set_ph; [exact Hi| |].
+  - destruct Hi as [_ Iph _ _ _]. unfold phinv in *. rewrite Hph in Iph. cbn.
+    destruct Iph as (A & B & C & D & E). split; [exact A|]. split; [exact B|]. split; [exact C|]. split; [exact D|exact Hc].
+  - intros k n a _ _ _ H. unfold bound_of in *. rewrite Hph in H. exact H.
+Qed.
+
+(* an iterator leaves the history read: used up (OHistDrop) or stopped at an unconfirmed event (OHistEvent) *)
+Lemma subinv_remove st u pend cur k it :
+  logwf c st -> wmwf st ->
+  subinv st u -> u_ph u = PHist pend cur -> find_it k pend = Some it ->
+  (forall a, a <= sb_nb st (kpid c k) -> cover c st k a (h_end it) -> cover c st k a (h_pos it)) ->
+  subinv st (u_set_ph u (mk_phase (remove_it k pend) None)).
+Proof.
+  intros Hl Hw Hi Hph Hf Hcov. apply subinv_set_ph; [exact Hi| |].
+  - destruct Hi as [_ Iph _ _ _]. unfold phinv in *. rewrite Hph in Iph. destruct Iph as (A & B & C & D & E).
+    cbn [u_ph u_set_ph]. destruct (remove_it k pend) as [|x l] eqn:Er; [exact I|]. cbn [mk_phase]. rewrite <- Er.
+    split; [rewrite Er; discriminate|]. split; [apply remove_it_nodup; exact B|]. split; [exact C|]. split.
+    + intros it' Hin. apply remove_it_in in Hin. apply D. tauto.
+    + intros ? ? Hx. discriminate.
+  - intros k2 n a Hk Ht Ha H. unfold bound_of in *. cbn [u_ph u_set_ph]. rewrite pend_of_mk_phase. rewrite Hph in H. cbn [pend_of] in H.
+    destruct (hkey_dec k2 k) as [->|Hne].
+    + rewrite find_it_remove_same. rewrite Hf in H.
+      destruct Hi as [_ Iph _ _ _]. unfold phinv in Iph. rewrite Hph in Iph. destruct Iph as (_ & _ & _ & D & _).
+      destruct (find_it_some _ _ _ Hf) as [Hin Hkey]. destruct (D it Hin) as (_ & Ht' & _). rewrite Hkey in Ht'.
+      rewrite Ht in Ht'. injection Ht' as ->. apply Hcov; assumption.
+    + rewrite find_it_remove_other by exact Hne. exact H.
+Qed.
+
+Lemma subinv_extend st u pend cur k it :
+  subinv st u -> u_ph u = PHist pend cur -> find_it k pend = Some it ->
+  subinv st (u_set_ph u (PHist (replace_it (mkIt k (h_pos it) (Nat.max (h_end it) (length (klog c st k)))) pend) cur)).
+Proof.
+  intros Hi Hph Hf.
+  destruct (find_it_some _ _ _ Hf) as [Hin Hkey].
+  set (it' := mkIt k (h_pos it) (Nat.max (h_end it) (length (klog c st k)))).
+  assert (Hk' : h_key it' = k) by reflexivity.
+  assert (Hfr : find_it k (replace_it it' pend) = Some it').
+  { apply (find_it_replace_same it' pend). eapply find_it_in_keys. exact Hf. }
+  assert (Hfo : forall k2, k2 <> k -> find_it k2 (replace_it it' pend) = find_it k2 pend).
+  { intros k2 Hne. apply find_it_replace_other. exact Hne. }
+  apply subinv_set_ph; [exact Hi| |].
+  - destruct Hi as [_ Iph _ _ _]. unfold phinv in *. rewrite Hph in Iph. destruct Iph as (A & B & C & D & E).
+    cbn [u_ph u_set_ph u_m u_hold].
+    split; [intros Hnil; apply (f_equal (map h_key)) in Hnil; rewrite replace_it_keys in Hnil; destruct pend; [congruence|discriminate]|].
+    split; [rewrite replace_it_keys; exact B|]. split; [exact C|]. split.
+    + intros x Hx. apply replace_it_in in Hx. destruct Hx as [[-> _]|[Hx _]]; [|apply D; exact Hx].
+      destruct (D it Hin) as (D1 & D2 & D3). rewrite Hkey in *. cbn. repeat split; try assumption. lia.
+    + intros k2 b Hc. destruct (E k2 b Hc) as (it2 & F1 & F2). destruct (hkey_dec k2 k) as [->|Hne].
+      * exists it'. split; [exact Hfr|].
+        rewrite Hf in F1. injection F1 as <-. cbn. lia.
+      * exists it2. split; [rewrite Hfo by exact Hne; exact F1|exact F2].
+  - intros k2 n a Hk Ht Ha H. unfold bound_of in *. cbn [u_ph u_set_ph pend_of]. rewrite Hph in H. cbn [pend_of] in H.
+    destruct (hkey_dec k2 k) as [->|Hne].
+    + rewrite Hfr. rewrite Hf in H. eapply cover_mono; [exact H|]. cbn. lia.
+    + rewrite Hfo by exact Hne. exact H.
+Qed.
+
+Lemma kpid_ekey st m e : logwf c st -> nth_error (sb_log st (e_pid e)) (e_seq e) = Some e ->
+  kpid c (ekey m e) = e_pid e /\ e_pid e < c_np c.
+Proof.
+  intros Hl Hn. destruct (Hl (e_pid e)) as [Hw Hne]. destruct (Hw _ _ Hn) as (_ & _ & _ & D).
+  split; [unfold ekey; destruct (is_part_kind m); cbn; [reflexivity|exact D]|].
+  apply Hne. intros Hnil. rewrite Hnil in Hn. destruct (e_seq e); discriminate.
+Qed.
+
+(* OHistEvent, the record goes out *)
+Lemma subinv_hist_deliver st u pend k bend it e :
+  logwf c st -> wmwf st -> subinv st u -> u_ph u = PHist pend (Some (k, bend)) -> find_it k pend = Some it ->
+  h_pos it < bend -> nth_error (klog c st k) (h_pos it) = Some e -> e_seq e < sb_wm st (e_pid e) -> win_open u = true ->
+  subinv st (deliver st u e (hist_update (u_m u) k (kpos k e))
+                     (PHist (replace_it (mkIt k (S (h_pos it)) (h_end it)) pend) (Some (k, bend))) None).
+Proof.
+  intros Hl Hw [Io Iph Ih Iq Iqe] Hph Hf Hlt Hn Hconf Hwin.
+  unfold phinv in Iph. rewrite Hph in Iph. destruct Iph as (A & B & C & D & E).
+  destruct (find_it_some _ _ _ Hf) as [Hin Hkey].
+  destruct (D it Hin) as (D1 & D2 & D3). rewrite Hkey in D1, D2, D3.
+  destruct (E k bend eq_refl) as (it2 & F1 & F2). rewrite Hf in F1. injection F1 as <-.
+  destruct (klog_nth c st k _ e Hl Hn) as (Kp & Km & Kn).
+  assert (Hek : k = ekey (u_m u) e) by (apply kkind_match_ekey; assumption).
+  assert (Hpid : e_pid e = kpid c k).
+  { destruct (proj1 (Hl (kpid c k)) _ _ Kn) as (P & _). exact P. }
+  assert (Hnp : kpid c k < c_np c).
+  { apply (proj2 (Hl (kpid c k))). intros Hnil. rewrite Hnil in Kn. destruct (e_seq e); discriminate. }
+  destruct (hist_update_spec (u_m u) k (kpos k e) (h_pos it) (i_hyd _ _ Io) (i_wf _ _ Io) D1 D2) as (M1 & M2 & M3 & M4).
+  set (it' := mkIt k (S (h_pos it)) (h_end it)).
+  assert (Hfr : find_it k (replace_it it' pend) = Some it').
+  { apply (find_it_replace_same it' pend). eapply find_it_in_keys. exact Hf. }
+  assert (Hfo : forall k2, k2 <> k -> find_it k2 (replace_it it' pend) = find_it k2 pend).
+  { intros k2 Hne. apply find_it_replace_other. exact Hne. }
+  constructor.
+  - apply deliver_outinv; try assumption.
+    + rewrite Hpid. exact Kn.
+    + rewrite <- Hek. exact Hnp.
+    + rewrite <- Hek. rewrite D2. discriminate.
+    + rewrite <- Hek. intros n Hn'. rewrite D2 in Hn'. injection Hn' as <-. exact Kp.
+    + rewrite <- Hek. exact M4.
+  - unfold phinv. cbn [u_ph deliver u_m u_hold].
+    split; [intros Hnil; apply (f_equal (map h_key)) in Hnil; rewrite replace_it_keys in Hnil; destruct pend; [congruence|discriminate]|].
+    split; [rewrite replace_it_keys; exact B|]. split; [reflexivity|]. split.
+    + intros x Hx. apply replace_it_in in Hx. destruct Hx as [[-> _]|[Hx Hxk]].
+      * cbn [h_key h_pos h_end it']. unfold kkind in *. rewrite M1. split; [exact D1|]. split; [|exact D3].
+        rewrite (M4 k D1). rewrite hkey_eqb_refl. rewrite Kp. reflexivity.
+      * destruct (D x Hx) as (X1 & X2 & X3). unfold kkind in *. rewrite M1. split; [exact X1|]. split; [|exact X3].
+        rewrite (M4 _ X1). cbn [h_key it'] in Hxk. apply hkey_eqb_neq in Hxk. rewrite Hxk. exact X2.
+    + intros k2 b Hc. injection Hc as <- <-. exists it'. split; [exact Hfr|exact F2].
+  - intros e' He'. discriminate.
+  - exact Iq.
+  - intros Hlag p. cbn [u_lagn deliver] in Hlag. destruct (Iqe Hlag p) as (a & Ha & Hs & Hc).
+    exists a. split; [exact Ha|]. split; [unfold eff_q in *; cbn [u_hold u_q deliver]; rewrite C in Hs; exact Hs|].
+    intros k2 n Hk2 Hp Ht. unfold bound_of in *. cbn [u_ph deliver pend_of u_m] in *. rewrite Hph in Hc. cbn [pend_of] in Hc.
+    assert (Hk2' : kkind (u_m u) k2 = true) by (unfold kkind in *; rewrite M1 in Hk2; exact Hk2).
+    rewrite (M4 k2 Hk2') in Ht. destruct (hkey_dec k2 k) as [->|Hne].
+    + rewrite Hfr. cbn [h_end it']. specialize (Hc k (h_pos it) Hk2' Hp D2). rewrite Hf in Hc. exact Hc.
+    + rewrite Hfo by exact Hne. apply hkey_eqb_neq in Hne. rewrite Hne in Ht. apply Hc; assumption.
+Qed.
+
+(* ORecv, a value is taken from the channel *)
+Lemma subinv_recv st u e r :
+  logwf c st -> wmwf st -> subinv st u -> u_ph u = PLive -> u_hold u = None -> u_lagn u = 0 -> u_q u = e :: r ->
+  subinv st (u_set_q u (if has_seen (u_m u) e then None else Some e) r 0).
+Proof.
+  intros Hl Hw [Io Iph Ih Iq Iqe] Hph Hh Hlag Hq.
+  (* the received value is the oldest waiting event of its partition *)
+  destruct (Iqe Hlag (e_pid e)) as (a & Ha & Hs & Hc).
+  unfold eff_q in Hs. rewrite Hh, Hq in Hs. cbn in Hs. rewrite Nat.eqb_refl in Hs. symmetry in Hs.
+  apply slice_uncons in Hs. destruct Hs as (Hab & Hna & Hr).
+  destruct (proj1 (Hl (e_pid e)) _ _ Hna) as (_ & Hseq & _).
+  assert (Hqinv : qinv st (u_set_q u (if has_seen (u_m u) e then None else Some e) r 0)).
+  { intros p. cbn [u_q u_set_q]. destruct (Nat.eq_dec p (e_pid e)) as [->|Hne].
+    - exists (S a). split; [lia|]. exact Hr.
+    - destruct (Iq p) as (a1 & Ha1 & Hs1). rewrite Hq in Hs1. cbn in Hs1.
+      destruct (e_pid e =? p) eqn:E; [apply Nat.eqb_eq in E; congruence|]. exists a1. auto. }
+  constructor.
+  - eapply outinv_eq; try exact Io; reflexivity.
+  - unfold phinv. cbn [u_ph u_set_q]. rewrite Hph. exact I.
+  - intros e' He'. cbn [u_hold u_set_q u_m] in *. destruct (has_seen (u_m u) e) eqn:Hseen; [discriminate|]. injection He' as <-.
+    split; [exact Hseen|]. split; [rewrite Hseq; exact Hna|]. split; [lia|].
+    intros n Ht. set (k := ekey (u_m u) e) in *.
+    assert (Hge : n <= kpos k e).
+    { rewrite has_seen_track in Hseen. fold k in Hseen. rewrite Ht in Hseen. apply Nat.ltb_ge in Hseen. exact Hseen. }
+    destruct (Nat.eq_dec (kpos k e) n) as [|Hne]; [assumption|]. exfalso.
+    assert (Hkp : kpid c k = e_pid e).
+    { apply (kpid_ekey st (u_m u) e Hl). rewrite Hseq. exact Hna. }
+    assert (Hke : nth_error (klog c st k) (kpos k e) = Some e).
+    { eapply klog_of_log; [exact Hl|exact Hna|apply dkey_match_ekey|exact Hkp]. }
+    assert (Hlen : n < length (klog c st k)).
+    { assert (kpos k e < length (klog c st k)) by (apply nth_error_Some; congruence). lia. }
+    destruct (nth_error (klog c st k) n) as [e2|] eqn:E2; [|apply nth_error_None in E2; lia].
+    destruct (klog_nth c st k n e2 Hl E2) as (P2 & _ & _).
+    assert (Hlt2 : e_seq e2 < e_seq e).
+    { eapply klog_mono_inv; [exact Hl|eapply nth_error_In; exact E2|eapply nth_error_In; exact Hke|lia]. }
+    specialize (Hc k n (kkind_ekey _ _) Hkp Ht). unfold bound_of in Hc. rewrite Hph in Hc. cbn in Hc.
+    specialize (Hc e2 (nth_error_In _ _ E2) ltac:(lia)). lia.
+  - exact Hqinv.
+  - intros _ p. cbn [u_m u_set_q]. destruct (has_seen (u_m u) e) eqn:Hseen.
+    + (* skipped *)
+      unfold eff_q, bound_of. cbn [u_hold u_q u_ph u_set_q]. rewrite Hph. cbn [pend_of find_it].
+      destruct (Nat.eq_dec p (e_pid e)) as [->|Hne].
+      * exists (S a). split; [lia|]. split; [exact Hr|].
+        intros k n Hk Hp Ht e' Hin' Hlt'.
+        specialize (Hc k n Hk Hp Ht). unfold bound_of in Hc. rewrite Hph in Hc. cbn in Hc.
+        destruct (Nat.eq_dec (e_seq e') a) as [Heq|Hne']; [|apply Hc; [exact Hin'|lia]].
+        destruct (klog_in c st k e' Hl Hin') as (Km & _ & Kn & _). rewrite Hp, Heq, Hna in Kn. injection Kn as <-.
+        assert (Hek : k = ekey (u_m u) e) by (apply kkind_match_ekey; assumption).
+        rewrite has_seen_track in Hseen. rewrite <- Hek in Hseen. rewrite Ht in Hseen. apply Nat.ltb_lt in Hseen. exact Hseen.
+      * destruct (Iqe Hlag p) as (a1 & Ha1 & Hs1 & Hc1). unfold eff_q in Hs1. rewrite Hh, Hq in Hs1. cbn in Hs1.
+        destruct (e_pid e =? p) eqn:E; [apply Nat.eqb_eq in E; congruence|]. exists a1. split; [exact Ha1|]. split; [exact Hs1|].
+        intros k n Hk Hp Ht. specialize (Hc1 k n Hk Hp Ht). unfold bound_of in Hc1. rewrite Hph in Hc1. exact Hc1.
+    + (* kept for send_record *)
+      destruct (Iqe Hlag p) as (a1 & Ha1 & Hs1 & Hc1). exists a1. split; [exact Ha1|]. split.
+      * unfold eff_q in *. cbn [u_hold u_q u_set_q]. rewrite Hh, Hq in Hs1. exact Hs1.
+      * intros k n Hk Hp Ht. specialize (Hc1 k n Hk Hp Ht). unfold bound_of in *. cbn [u_ph u_set_q]. exact Hc1.
+Qed.
+
+(* OSend, the live record goes out *)
+Lemma subinv_send st u e :
+  logwf c st -> wmwf st -> subinv st u -> u_ph u = PLive -> u_hold u = Some e -> win_open u = true ->
+  subinv st (deliver st u e (update_state (u_m u) e) PLive None).
+Proof.
+  intros Hl Hw [Io Iph Ih Iq Iqe] Hph Hh Hwin.
+  destruct (Ih e Hh) as (Hseen & Hna & Hnb & Hpos).
+  destruct (kpid_ekey st (u_m u) e Hl Hna) as [Hkp Hnp].
+  destruct (update_state_spec (u_m u) e (i_hyd _ _ Io) (i_wf _ _ Io) Hseen) as (M1 & M2 & M3 & M4).
+  set (k0 := ekey (u_m u) e) in *.
+  assert (Hke : nth_error (klog c st k0) (kpos k0 e) = Some e).
+  { eapply klog_of_log; [exact Hl|exact Hna|apply dkey_match_ekey|exact Hkp]. }
+  constructor.
+  - apply deliver_outinv; try assumption.
+    + destruct (Hw (e_pid e)). lia.
+    + fold k0. lia.
+    + fold k0. intros Ht. rewrite has_seen_track in Hseen. fold k0 in Hseen. rewrite Ht in Hseen. discriminate.
+  - exact I.
+  - intros e' He'. discriminate.
+  - exact Iq.
+  - intros Hlag p. cbn [u_lagn deliver] in Hlag. unfold eff_q, bound_of. cbn [u_hold u_q u_ph u_m deliver pend_of find_it].
+    destruct (Iqe Hlag (e_pid e)) as (a & Ha & Hs & Hc).
+    unfold eff_q in Hs. rewrite Hh in Hs. cbn in Hs. rewrite Nat.eqb_refl in Hs. symmetry in Hs.
+    apply slice_uncons in Hs. destruct Hs as (Hab & Hna' & Hr).
+    assert (Hseq : e_seq e = a).
+    { destruct (proj1 (Hl (e_pid e)) _ _ Hna') as (_ & X & _). exact X. }
+    destruct (Nat.eq_dec p (e_pid e)) as [->|Hne].
+    + exists (S a). split; [lia|]. split; [exact Hr|].
+      intros k n Hk Hp Ht e' Hin' Hlt'.
+      assert (Hk' : kkind (u_m u) k = true) by (unfold kkind in *; rewrite M1 in Hk; exact Hk).
+      rewrite (M4 k Hk') in Ht. destruct (hkey_dec k k0) as [->|Hnek].
+      * rewrite hkey_eqb_refl in Ht. injection Ht as <-.
+        destruct (Nat.eq_dec (e_seq e') (e_seq e)) as [Heq|Hneq].
+        { rewrite (klog_inj c st k0 e' e Hl Hin' (nth_error_In _ _ Hke) Heq). lia. }
+        assert (kpos k0 e' < kpos k0 e); [|lia].
+        eapply klog_mono; [exact Hl|exact Hin'|eapply nth_error_In; exact Hke|lia].
+      * pose proof Hnek as Hnek'. apply hkey_eqb_neq in Hnek'. rewrite Hnek' in Ht.
+        specialize (Hc k n Hk' Hp Ht). unfold bound_of in Hc. rewrite Hph in Hc. cbn in Hc.
+        destruct (Nat.eq_dec (e_seq e') a) as [Heq|Hneq]; [|apply Hc; [exact Hin'|lia]].
+        exfalso. destruct (klog_in c st k e' Hl Hin') as (Km & _ & Kn & _). rewrite Hp, Heq, Hna' in Kn. injection Kn as <-.
+        apply Hnek. apply kkind_match_ekey; assumption.
+    + destruct (Iqe Hlag p) as (a1 & Ha1 & Hs1 & Hc1). unfold eff_q in Hs1. rewrite Hh in Hs1. cbn in Hs1.
+      destruct (e_pid e =? p) eqn:E; [apply Nat.eqb_eq in E; congruence|]. exists a1. split; [exact Ha1|]. split; [exact Hs1|].
+      intros k n Hk Hp Ht.
+      assert (Hk' : kkind (u_m u) k = true) by (unfold kkind in *; rewrite M1 in Hk; exact Hk).
+      rewrite (M4 k Hk') in Ht.
+      assert (Hnek : k <> k0) by (intros ->; rewrite Hkp in Hp; congruence).
+      apply hkey_eqb_neq in Hnek. rewrite Hnek in Ht.
+      specialize (Hc1 k n Hk' Hp Ht). unfold bound_of in Hc1. rewrite Hph in Hc1. exact Hc1.
+Qed.
+
+(* the start of a history read (Subscribe, or after Lagged) *)
+Lemma enter_run st u m' pend :
+  logwf c st -> wmwf st -> start_history c st (u_m u) = (m', pend) -> wf_matcher (u_m u) ->
+  u_hold u = None -> u_lagn u = 0 -> qinv st u ->
+  let u' := u_set_m_ph u m' (mk_phase pend None) in
+  phinv st u' /\ holdinv st u' /\ qinv st u' /\ qeinv st u'.
+Proof.
+  intros Hl Hw Hs Hwf Hh Hlag Iq u'.
+  destruct (start_history_spec c st (u_m u) m' pend Hwf Hs) as (S1 & S2 & S3 & S4 & S5 & S6 & S7 & S8).
+  split; [|split; [|split]].
+  - unfold phinv, u'. cbn [u_ph u_set_m_ph u_m u_hold]. destruct pend as [|x l] eqn:Ep; [exact I|]. cbn [mk_phase]. rewrite <- Ep in *.
+    split; [rewrite Ep; discriminate|]. split; [exact S6|]. split; [exact Hh|]. split.
+    + intros it Hin. destruct (S7 it Hin) as (X1 & X2 & X3). split; [exact X1|]. split; [exact X2|]. rewrite X3. apply Nat.le_refl.
+    + intros ? ? Hx. discriminate.
+  - intros e He. unfold u' in He. cbn in He. congruence.
+  - exact Iq.
+  - intros _ p. destruct (Iq p) as (a & Ha & Hsl). exists a. split; [exact Ha|].
+    split; [unfold eff_q, u'; cbn [u_hold u_q u_set_m_ph]; rewrite Hh; exact Hsl|].
+    intros k n Hk Hp Ht. unfold bound_of, u'. cbn [u_ph u_set_m_ph u_m] in *. rewrite pend_of_mk_phase.
+    destruct (find_it k pend) as [it|] eqn:Ef.
+    + destruct (find_it_some _ _ _ Ef) as [Hin Hkey]. destruct (S7 it Hin) as (_ & _ & X3). rewrite X3, Hkey. apply cover_len. exact Hl.
+    + destruct (S8 k n Hk Ht Ef) as (q & -> & [Hq|Hq]).
+      * intros e He Hlt. cbn in *. subst p. destruct (Hw q). lia.
+      * intros e He Hlt. exfalso. cbn in He. destruct (Hl q) as [_ Hne].
+        assert (q < c_np c); [|lia]. apply Hne. intros Hnil. rewrite Hnil in He. destruct He.
+Qed.
+
+Lemma subinv_lagged st u lags' :
+  logwf c st -> wmwf st -> subinv st u -> u_hold u = None ->
+  subinv st (enter_history c st (mkSub (u_m0 u) (u_m u) (u_win u) (u_cur u) (u_ack u) (u_ph u) None (u_q u) 0 (u_out u) lags')).
+Proof.
+  intros Hl Hw [Io Iph Ih Iq Iqe] Hh.
+  set (u1 := mkSub (u_m0 u) (u_m u) (u_win u) (u_cur u) (u_ack u) (u_ph u) None (u_q u) 0 (u_out u) lags').
+  unfold enter_history. destruct (start_history c st (u_m u1)) as [m' pend] eqn:Es.
+  destruct (start_history_spec c st (u_m u1) m' pend (i_wf _ _ Io) Es) as (_ & _ & _ & _ & S5 & _).
+  assert (Hm : m' = u_m u) by (apply S5; exact (i_hyd _ _ Io)). subst m'.
+  destruct (enter_run st u1 (u_m u) pend Hl Hw Es (i_wf _ _ Io) eq_refl eq_refl Iq) as (R1 & R2 & R3 & R4).
+  constructor; try assumption. eapply outinv_eq; try exact Io; reflexivity.
+Qed.
+
+Lemma subinv_subscribe st m w :
+  logwf c st -> wmwf st -> wf_matcher m ->
+  subinv st (enter_history c st (mkSub m m w 0 None PLive None [] 0 [] [])).
+Proof.
+  intros Hl Hw Hwf.
+  set (u0 := mkSub m m w 0 None PLive None [] 0 [] []).
+  unfold enter_history. destruct (start_history c st (u_m u0)) as [m' pend] eqn:Es.
+  destruct (start_history_spec c st m m' pend Hwf Es) as (S1 & S2 & S3 & S4 & _).
+  assert (Iq : qinv st u0).
+  { intros p. exists (sb_nb st p). split; [lia|]. rewrite slice_nil. reflexivity. }
+  destruct (enter_run st u0 m' pend Hl Hw Es Hwf eq_refl eq_refl Iq) as (R1 & R2 & R3 & R4).
+  constructor; try assumption.
+  constructor; cbn; try assumption; try reflexivity.
+  - constructor.
+  - intros i d H. destruct i; discriminate.
+  - intros k Hk. constructor; cbn.
+    + exists 0. reflexivity.
+    + intros H. congruence.
+    + intros _ Hp. apply S4. exact Hp.
+    + intros n _ H. congruence.
+Qed.
+
+(* OAppend: the logs grow *)
+Lemma subinv_append st st' u :
+  log_ext st st' -> sb_wm st' = sb_wm st -> sb_nb st' = sb_nb st -> logwf c st -> logwf c st' -> wmwf st ->
+  subinv st u -> subinv st' u.
+Proof.
+  intros He Hwm Hnb Hl Hl' Hw [[I1 I2 I3 I4 I5 I6 I7] Iph Ih Iq Iqe].
+  constructor.
+  - constructor; try assumption. rewrite Hwm. eapply Forall_impl; [|exact I5]. cbn. intros d (X1 & X2 & X3 & X4).
+    repeat split; try assumption. destruct (He (e_pid (d_ev d))) as [x ->]. apply nth_error_app_l. exact X4.
+  - unfold phinv in *. destruct (u_ph u) as [pend cur|]; [|exact I]. destruct Iph as (A & B & C & D & E).
+    split; [exact A|]. split; [exact B|]. split; [exact C|]. split; [|exact E].
+    intros it Hin. destruct (D it Hin) as (D1 & D2 & D3). split; [exact D1|]. split; [exact D2|].
+    pose proof (klog_ext_len c st st' (h_key it) He). lia.
+  - intros e Hh. destruct (Ih e Hh) as (H1 & H2 & H3 & H4). rewrite Hnb. split; [exact H1|]. split; [|split; assumption].
+    destruct (He (e_pid e)) as [x ->]. apply nth_error_app_l. exact H2.
+  - intros p. destruct (Iq p) as (a & Ha & Hs). exists a. rewrite Hnb. split; [exact Ha|].
+    destruct (He p) as [x ->]. rewrite slice_app_l; [exact Hs|]. destruct (Hw p). lia.
+  - intros Hlag p. destruct (Iqe Hlag p) as (a & Ha & Hs & Hc). exists a. rewrite Hnb. split; [exact Ha|]. split.
+    + destruct (He p) as [x ->]. rewrite slice_app_l; [exact Hs|]. destruct (Hw p). lia.
+    + intros k n Hk Hp Ht. eapply cover_ext; try eassumption; [|apply Hc; assumption]. rewrite Hp. destruct (Hw p). lia.
+Qed.
+
+(* OAdvance: a watermark grows *)
+Lemma subinv_advance st st' u :
+  sb_log st' = sb_log st -> sb_nb st' = sb_nb st -> (forall p, sb_wm st p <= sb_wm st' p) ->
+  subinv st u -> subinv st' u.
+Proof.
+  intros Hlog Hnb Hwm [[I1 I2 I3 I4 I5 I6 I7] Iph Ih Iq Iqe].
+  assert (Hk : forall k, klog c st' k = klog c st k) by (intros [p|s]; cbn; rewrite Hlog; reflexivity).
+  constructor.
+  - constructor; try assumption. eapply Forall_impl; [|exact I5]. cbn. intros d (A & B & C & D). specialize (Hwm (e_pid (d_ev d))). rewrite Hlog. repeat split; try assumption; lia.
+  - unfold phinv in *. destruct (u_ph u) as [pend cur|]; [|exact I]. destruct Iph as (A & B & C & D & E).
+    split; [exact A|]. split; [exact B|]. split; [exact C|]. split; [|exact E].
+    intros it Hin. rewrite Hk. apply D. exact Hin.
+  - intros e Hh. rewrite Hlog, Hnb. apply Ih. exact Hh.
+  - intros p. rewrite Hlog, Hnb. apply Iq.
+  - intros Hlag p. destruct (Iqe Hlag p) as (a & Ha & Hs & Hc). exists a. rewrite Hlog, Hnb. split; [exact Ha|]. split; [exact Hs|].
+    intros k n Hk1 Hp Ht e He. rewrite Hk in He. apply (Hc k n Hk1 Hp Ht). exact He.
+Qed.
+
+(* OBcast: one value is added to the channel *)
+Definition nb_inv (L : nat -> list sevent) (NB : nat -> nat) (q : list sevent) : Prop :=
+  forall p, exists a, a <= NB p /\ pfilter p q = slice (L p) a (NB p).
+
+Lemma nb_inv_push L NB q p e :
+  nb_inv L NB q -> nth_error (L p) (NB p) = Some e -> e_pid e = p ->
+  nb_inv L (fupd NB p (S (NB p))) (q ++ [e]).
+Proof.
+  intros H Hn Hp p'. destruct (H p') as (a & Ha & Hs). unfold fupd. rewrite pfilter_app. cbn. rewrite Hp.
+  destruct (p' =? p) eqn:E.
+  - apply Nat.eqb_eq in E. subst p'. rewrite Nat.eqb_refl. exists a. split; [lia|].
+    rewrite Hs. rewrite <- (slice_one _ _ _ Hn). apply slice_app_r; lia.
+  - rewrite Nat.eqb_sym in E. rewrite E. exists a. rewrite app_nil_r. auto.
+Qed.
+
+Lemma nb_inv_tl L NB q : nb_inv L NB q -> nb_inv L NB (tl q).
+Proof.
+  intros H p. destruct (H p) as (a & Ha & Hs). destruct (pfilter_tl (L p) p q a (NB p) Hs Ha) as (a' & H1 & H2 & H3).
+  exists a'. auto.
+Qed.
+
+Lemma q_push_fields u e :
+  let u' := q_push c u e in
+  u_m0 u' = u_m0 u /\ u_m u' = u_m u /\ u_win u' = u_win u /\ u_cur u' = u_cur u /\ u_ack u' = u_ack u /\
+  u_ph u' = u_ph u /\ u_hold u' = u_hold u /\ u_out u' = u_out u /\
+  ((u_q u' = u_q u ++ [e] /\ u_lagn u' = u_lagn u) \/ (u_q u' = tl (u_q u ++ [e]) /\ u_lagn u' = S (u_lagn u))).
+Proof.
+  unfold q_push. cbn zeta. destruct (c_cap c <? length (u_q u ++ [e])); cbn; repeat split; auto.
+Qed.
+
+Lemma subinv_push st u p e NB :
+  (forall d, In d (u_out u) -> True) ->
+  outinv st u -> phinv st u ->
+  (forall e', u_hold u = Some e' -> has_seen (u_m u) e' = false /\ nth_error (sb_log st (e_pid e')) (e_seq e') = Some e' /\
+                                   e_seq e' < NB (e_pid e') /\
+                                   forall n, mtrack (u_m u) (ekey (u_m u) e') = TFrom n -> kpos (ekey (u_m u) e') e' = n) ->
+  nb_inv (sb_log st) NB (u_q u) ->
+  (u_lagn u = 0 -> forall p', exists a, a <= NB p' /\ pfilter p' (eff_q u) = slice (sb_log st p') a (NB p') /\
+      forall k n, kkind (u_m u) k = true -> kpid c k = p' -> mtrack (u_m u) k = TFrom n -> cover c st k a (bound_of u k n)) ->
+  nth_error (sb_log st p) (NB p) = Some e -> e_pid e = p ->
+  let u' := q_push c u e in let NB' := fupd NB p (S (NB p)) in
+  outinv st u' /\ phinv st u' /\
+  (forall e', u_hold u' = Some e' -> has_seen (u_m u') e' = false /\ nth_error (sb_log st (e_pid e')) (e_seq e') = Some e' /\
+                                   e_seq e' < NB' (e_pid e') /\
+                                   forall n, mtrack (u_m u') (ekey (u_m u') e') = TFrom n -> kpos (ekey (u_m u') e') e' = n) /\
+  nb_inv (sb_log st) NB' (u_q u') /\
+  (u_lagn u' = 0 -> forall p', exists a, a <= NB' p' /\ pfilter p' (eff_q u') = slice (sb_log st p') a (NB' p') /\
+      forall k n, kkind (u_m u') k = true -> kpid c k = p' -> mtrack (u_m u') k = TFrom n -> cover c st k a (bound_of u' k n)).
+Proof.
+  intros _ Io Iph Ih Iq Iqe Hn Hp u' NB'.
+  destruct (q_push_fields u e) as (F1 & F2 & F3 & F4 & F5 & F6 & F7 & F8 & F9). fold u' in F1, F2, F3, F4, F5, F6, F7, F8, F9.
+  assert (HNB : forall x, NB x <= NB' x) by (intros x; unfold NB', fupd; destruct (x =? p) eqn:E; [apply Nat.eqb_eq in E; subst; lia|lia]).
+  split; [eapply outinv_eq; try exact Io; assumption|].
+  split; [unfold phinv in *; rewrite F6, F2, F7; exact Iph|].
+  split.
+  { intros e' He'. rewrite F7 in He'. rewrite F2. destruct (Ih e' He') as (H1 & H2 & H3 & H4). repeat split; try assumption.
+    specialize (HNB (e_pid e')). lia. }
+  split.
+  { destruct F9 as [[-> _]|[-> _]]; [|apply nb_inv_tl]; apply nb_inv_push; assumption. }
+  intros Hlag. destruct F9 as [[Fq Fl]|[_ Fl]]; [|rewrite Fl in Hlag; discriminate].
+  rewrite Fl in Hlag. intros p'. destruct (Iqe Hlag p') as (a & Ha & Hs & Hc).
+  assert (Heq : eff_q u' = eff_q u ++ [e]).
+  { unfold eff_q. rewrite F7, Fq. destruct (u_hold u); reflexivity. }
+  exists a. split; [specialize (HNB p'); lia|]. split.
+  - rewrite Heq, pfilter_app. cbn. rewrite Hp. unfold NB', fupd. destruct (p' =? p) eqn:E.
+    + apply Nat.eqb_eq in E. subst p'. rewrite Nat.eqb_refl. rewrite Hs. rewrite <- (slice_one _ _ _ Hn). apply slice_app_r; lia.
+    + rewrite Nat.eqb_sym in E. rewrite E. rewrite app_nil_r. exact Hs.
+  - intros k n Hk Hkp Ht. rewrite F2 in Hk, Ht. unfold bound_of. rewrite F6. apply Hc; assumption.
+Qed.
+
+Definition pushinv (st : sbstate) (NB : nat -> nat) (u : subst) : Prop :=
+  outinv st u /\ phinv st u /\
+  (forall e', u_hold u = Some e' -> has_seen (u_m u) e' = false /\ nth_error (sb_log st (e_pid e')) (e_seq e') = Some e' /\
+                                   e_seq e' < NB (e_pid e') /\
+                                   forall n, mtrack (u_m u) (ekey (u_m u) e') = TFrom n -> kpos (ekey (u_m u) e') e' = n) /\
+  nb_inv (sb_log st) NB (u_q u) /\
+  (u_lagn u = 0 -> forall p', exists a, a <= NB p' /\ pfilter p' (eff_q u) = slice (sb_log st p') a (NB p') /\
+      forall k n, kkind (u_m u) k = true -> kpid c k = p' -> mtrack (u_m u) k = TFrom n -> cover c st k a (bound_of u k n)).
+
+Lemma pushinv_ext st NB NB' u : (forall x, NB x = NB' x) -> pushinv st NB u -> pushinv st NB' u.
+Proof.
+  intros He (A & B & C & D & E). split; [exact A|]. split; [exact B|]. split; [|split].
+  - intros e' He'. rewrite <- He. apply C. exact He'.
+  - intros p. rewrite <- He. apply D.
+  - intros Hl p. rewrite <- He. apply E. exact Hl.
+Qed.
+
+Lemma push_fold st p n : forall u NB,
+  logwf c st -> pushinv st NB u -> NB p + n <= length (sb_log st p) ->
+  pushinv st (fupd NB p (NB p + n)) (fold_left (q_push c) (slice (sb_log st p) (NB p) (NB p + n)) u).
+Proof.
+  induction n as [|n IH]; intros u NB Hl Hi Hlen.
+  - rewrite Nat.add_0_r, slice_nil. cbn. eapply pushinv_ext; [|exact Hi].
+    intros x. unfold fupd. destruct (x =? p) eqn:E; [apply Nat.eqb_eq in E; subst; reflexivity|reflexivity].
+  - destruct (nth_error (sb_log st p) (NB p)) as [e|] eqn:En; [|apply nth_error_None in En; lia].
+    rewrite (slice_cons _ _ _ _ En) by lia. cbn [fold_left].
+    destruct (proj1 (Hl p) _ _ En) as (Hp & _).
+    destruct Hi as (A & B & C & D & E).
+    pose proof (subinv_push st u p e NB (fun _ _ => I) A B C D E En Hp) as Hi1. cbn zeta in Hi1.
+    set (NB1 := fupd NB p (S (NB p))) in *.
+    assert (H1 : NB1 p = S (NB p)) by (unfold NB1, fupd; rewrite Nat.eqb_refl; reflexivity).
+    specialize (IH (q_push c u e) NB1 Hl Hi1 ltac:(lia)). rewrite H1 in IH.
+    replace (NB p + S n) with (S (NB p) + n) by lia.
+    eapply pushinv_ext; [|exact IH]. intros x. unfold NB1, fupd. destruct (x =? p); reflexivity.
+Qed.
+
+Lemma subinv_pushinv st u : subinv st u <-> pushinv st (sb_nb st) u.
+Proof.
+  split.
+  - intros [A B C D E]. split; [exact A|]. split; [exact B|]. split; [exact C|]. split; [exact D|exact E].
+  - intros (A & B & C & D & E). constructor; assumption.
+Qed.
+
+Lemma pushinv_nb st st' NB u :
+  sb_log st' = sb_log st -> sb_wm st' = sb_wm st -> (forall x, sb_nb st' x = NB x) -> pushinv st NB u -> subinv st' u.
+Proof.
+  intros Hlog Hwm Hnb Hi. apply (pushinv_ext st NB (sb_nb st')) in Hi; [|intros; symmetry; apply Hnb].
+  destruct st as [l w n b s], st' as [l' w' n' b' s']. cbn in *. subst l' w'.
+  destruct Hi as ([I1 I2 I3 I4 I5 I6 I7] & B & C & D & E).
+  constructor; [constructor; assumption|exact B|exact C|exact D|exact E].
+Qed.
+
+(* ================================================================== every step keeps the invariant *)
+
+Lemma set_sub_inv st u' :
+  logwf c st -> wmwf st -> subinv st u' -> sbinv (set_sub st u').
+Proof.
+  intros Hl Hw Hi. split; [exact Hl|]. split; [exact Hw|]. intros u Hu. cbn in Hu. injection Hu as <-.
+  eapply subinv_glob; [..|exact Hi]; reflexivity.
+Qed.
+
+Theorem sbinv_step st o : op_wf o -> sbinv st -> sbinv (sb_step c st o).
+Proof.
+  intros Hop Hall. pose proof Hall as (Hl & Hw & Hs).
+  destruct o as [p sids|p w|p|m w|a|k n| |k|k| |]; cbn [sb_step].
+  - (* OAppend *)
+    destruct ((p <? c_np c) && forallb (fun s => spid c s =? p) sids) eqn:E; [|exact Hall].
+    apply andb_prop in E. destruct E as [E1 E2]. apply Nat.ltb_lt in E1.
+    destruct (append_evs_spec c p sids (sb_log st p) (proj1 (Hl p)) E2) as [A [x B]].
+    set (st' := mkSb (fupd (sb_log st) p (append_evs p sids (sb_log st p))) (sb_wm st) (sb_nb st) (sb_bg st) (sb_sub st)).
+    assert (Hl' : logwf c st').
+    { intros q. cbn. unfold fupd. destruct (q =? p) eqn:Eq; [apply Nat.eqb_eq in Eq; subst q; split; [exact A|intros _; exact E1]|apply Hl]. }
+    assert (He : log_ext st st').
+    { intros q. cbn. unfold fupd. destruct (q =? p) eqn:Eq; [apply Nat.eqb_eq in Eq; subst q; exists x; exact B|exists []; symmetry; apply app_nil_r]. }
+    split; [exact Hl'|]. split.
+    + intros q. cbn. destruct (Hw q) as [W1 W2]. split; [exact W1|]. destruct (He q) as [y Hy]. cbn in Hy. rewrite Hy, app_length. lia.
+    + intros u Hu. cbn in Hu. apply (subinv_append st st' u He eq_refl eq_refl Hl Hl' Hw). apply Hs. exact Hu.
+  - (* OAdvance *)
+    set (st' := mkSb (sb_log st) (fupd (sb_wm st) p (Nat.max (sb_wm st p) (Nat.min w (length (sb_log st p))))) (sb_nb st) (sb_bg st) (sb_sub st)).
+    assert (Hwm : forall q, sb_wm st q <= sb_wm st' q).
+    { intros q. cbn. unfold fupd. destruct (q =? p) eqn:Eq; [apply Nat.eqb_eq in Eq; subst q; lia|lia]. }
+    split; [exact Hl|]. split.
+    + intros q. cbn. unfold fupd. destruct (Hw q) as [W1 W2]. destruct (q =? p) eqn:Eq; [apply Nat.eqb_eq in Eq; subst q; lia|lia].
+    + intros u Hu. cbn in Hu. apply (subinv_advance st st' u eq_refl eq_refl Hwm). apply Hs. exact Hu.
+  - (* OBcast *)
+    destruct (Hw p) as [W1 W2].
+    assert (Hmax : Nat.max (sb_nb st p) (sb_wm st p) = sb_nb st p + (sb_wm st p - sb_nb st p)) by lia.
+    assert (Hwm' : forall (s : option subst), wmwf (mkSb (sb_log st) (sb_wm st) (fupd (sb_nb st) p (Nat.max (sb_nb st p) (sb_wm st p))) (sb_bg st) s)).
+    { intros s q. cbn. unfold fupd. destruct (Hw q). destruct (q =? p) eqn:Eq; [apply Nat.eqb_eq in Eq; subst q; lia|lia]. }
+    destruct (sb_sub st) as [u|] eqn:Eu.
+    + split; [exact Hl|]. split; [apply Hwm'|]. intros u' Hu'. cbn in Hu'. injection Hu' as <-.
+      pose proof (push_fold st p (sb_wm st p - sb_nb st p) u (sb_nb st) Hl (proj1 (subinv_pushinv st u) (Hs u eq_refl)) ltac:(lia)) as Hp.
+      replace (sb_nb st p + (sb_wm st p - sb_nb st p)) with (sb_wm st p) in Hp by lia.
+      match goal with |- subinv ?S _ => apply (pushinv_nb st S (fupd (sb_nb st) p (sb_wm st p)) _ eq_refl eq_refl) end; [|exact Hp].
+      intros x. cbn. unfold fupd. destruct (x =? p); [lia|reflexivity].
+    + destruct (sb_bg st); [|exact Hall].
+      split; [exact Hl|]. split; [apply Hwm'|]. intros u Hu. discriminate.
+  - (* OSubscribe *)
+    destruct (sb_sub st) as [u|] eqn:Eu; [exact Hall|].
+    apply set_sub_inv; try assumption. apply subinv_subscribe; assumption.
+  - (* OAck *)
+    destruct (sb_sub st) as [u|] eqn:Eu; [|exact Hall].
+    destruct (a <? u_cur u); [|exact Hall].
+    apply set_sub_inv; try assumption. apply subinv_set_ack. apply Hs. reflexivity.
+  - (* OHistBatch *)
+    destruct (sb_sub st) as [u|] eqn:Eu; [|exact Hall].
+    destruct (u_ph u) as [pend [cur|]|] eqn:Eph; try (exact Hall).
+    destruct (find_it k pend) as [it|] eqn:Ef; [|exact Hall].
+    destruct (it_done it); [exact Hall|].
+    apply set_sub_inv; try assumption. eapply subinv_set_cur; [apply Hs; reflexivity|exact Eph|].
+    intros k2 b Hc. injection Hc as <- <-. exists it. split; [exact Ef|lia].
+  - (* OHistEvent *)
+    destruct (sb_sub st) as [u|] eqn:Eu; [|exact Hall].
+    pose proof (Hs u eq_refl) as Hi.
+    destruct (u_ph u) as [pend [[k bend]|]|] eqn:Eph; try (exact Hall).
+    assert (Hphi := i_ph _ _ Hi). unfold phinv in Hphi. rewrite Eph in Hphi. destruct Hphi as (PA & PB & PC & PD & PE).
+    destruct (PE k bend eq_refl) as (it & Ef & Hb). rewrite Ef.
+    destruct (find_it_some _ _ _ Ef) as [Hin Hkey]. destruct (PD it Hin) as (D1 & D2 & D3). rewrite Hkey in D1, D2, D3.
+    destruct (bend <=? h_pos it) eqn:Eb.
+    { apply set_sub_inv; try assumption. eapply subinv_set_cur; [exact Hi|exact Eph|]. intros ? ? Hx; discriminate. }
+    apply Nat.leb_gt in Eb.
+    destruct (nth_error (klog c st k) (h_pos it)) as [e|] eqn:En; [|apply nth_error_None in En; lia].
+    destruct (e_seq e <? sb_wm st (e_pid e)) eqn:Ec.
+    + apply Nat.ltb_lt in Ec. destruct (win_open u) eqn:Ewin; [|exact Hall].
+      apply set_sub_inv; try assumption. eapply subinv_hist_deliver; eassumption.
+    + apply Nat.ltb_ge in Ec.
+      assert (Hrm : subinv st (u_set_ph u (mk_phase (remove_it k pend) None))).
+      { eapply subinv_remove; try eassumption. intros a Ha _.
+        destruct (klog_nth c st k _ e Hl En) as (_ & _ & Kn). destruct (proj1 (Hl (kpid c k)) _ _ Kn) as (Kp & _).
+        eapply cover_stop; [exact Hl|exact En|]. rewrite Kp in Ec. destruct (Hw (kpid c k)). lia. }
+      destruct k as [q|q]; [|rewrite Hbrk]; apply set_sub_inv; assumption.
+  - (* OHistDrop *)
+    destruct (sb_sub st) as [u|] eqn:Eu; [|exact Hall].
+    destruct (u_ph u) as [pend [cur|]|] eqn:Eph; try (exact Hall).
+    destruct (find_it k pend) as [it|] eqn:Ef; [|exact Hall].
+    destruct (it_done it) eqn:Ed; [|exact Hall].
+    apply set_sub_inv; try assumption. eapply subinv_remove; try eassumption; [apply Hs; reflexivity|].
+    intros a _ H. eapply cover_mono; [exact H|]. unfold it_done in Ed. apply Nat.leb_le in Ed. exact Ed.
+  - (* OExtend *)
+    destruct (sb_sub st) as [u|] eqn:Eu; [|exact Hall].
+    destruct (u_ph u) as [pend cur|] eqn:Eph; [|exact Hall].
+    destruct (find_it k pend) as [it|] eqn:Ef; [|exact Hall].
+    apply set_sub_inv; try assumption. eapply subinv_extend; [apply Hs; reflexivity|exact Eph|exact Ef].
+  - (* ORecv *)
+    destruct (sb_sub st) as [u|] eqn:Eu; [|exact Hall].
+    pose proof (Hs u eq_refl) as Hi.
+    destruct (u_ph u) as [pend cur|] eqn:Eph; [exact Hall|].
+    destruct (u_hold u) as [e0|] eqn:Eh; [exact Hall|].
+    destruct (0 <? u_lagn u) eqn:Elag.
+    + apply set_sub_inv; try assumption. rewrite <- Eph. apply subinv_lagged; assumption.
+    + apply Nat.ltb_ge in Elag. destruct (u_q u) as [|e r] eqn:Eq; [exact Hall|].
+      apply set_sub_inv; try assumption. apply subinv_recv; try assumption. lia.
+  - (* OSend *)
+    destruct (sb_sub st) as [u|] eqn:Eu; [|exact Hall].
+    pose proof (Hs u eq_refl) as Hi.
+    destruct (u_ph u) as [pend cur|] eqn:Eph; [exact Hall|].
+    destruct (u_hold u) as [e0|] eqn:Eh; [|exact Hall].
+    destruct (win_open u) eqn:Ewin; [|exact Hall].
+    apply set_sub_inv; try assumption. apply subinv_send; assumption.
+Qed.
+
+Lemma sbinv_init bg : sbinv (sb_init bg).
+Proof.
+  split; [|split].
+  - intros p. split; [intros i e H; destruct i; discriminate|intros H; exfalso; apply H; reflexivity].
+  - intros p. cbn. lia.
+  - intros u H. discriminate.
+Qed.
+
+
+Theorem sbinv_run bg ops : ops_wf ops -> sbinv (sb_run c bg ops).
+Proof.
+  unfold sb_run. intros H. generalize (sbinv_init bg). generalize (sb_init bg).
+  induction H as [|o ops Ho Hops IH]; intros st Hi; cbn; [exact Hi|]. apply IH. apply sbinv_step; assumption.
+Qed.
+
+End Inv.
+
+(* ================================================================== the theorems *)
+Lemma fs_start_track fs k n : fs_start fs k = Some n <-> fs_track fs k = TFrom n.
+Proof.
+  destruct fs as [|m fb|x]; cbn; [split; discriminate| |split; congruence].
+  destruct (alookup k m); [split; congruence|]. destruct fb; split; congruence.
+Qed.
+
+Lemma sub_start_track m k n : sub_start m k = Some n <-> mtrack m k = TFrom n.
+Proof.
+  destruct m as [fs|p from|ps fs|s from|ss fs], k as [q|q]; cbn; try (split; discriminate).
+  - apply fs_start_track.
+  - destruct (q =? p); [destruct from; cbn; split; congruence|split; discriminate].
+  - destruct (memb q ps); [apply fs_start_track|split; discriminate].
+  - destruct (q =? s); [destruct from; cbn; split; congruence|split; discriminate].
+  - destruct (memb q ss); [apply fs_start_track|split; discriminate].
+Qed.
+
+Lemma key_kind_kkind m k : key_kind m k = kkind m k.
+Proof. reflexivity. Qed.
+
+Lemma gap_of_unacked d : gap_of d = unacked_after d.
+Proof. reflexivity. Qed.
+
+(* order / once / no gap / confirmed *)
+Theorem sub_order_once_nogap c bg ops u :
+  c_brk c = true -> ops_wf ops -> sb_sub (sb_run c bg ops) = Some u ->
+  (forall k, key_kind (u_m0 u) k = true ->
+     consecutive (dpos k (u_out u)) /\
+     (forall n, sub_start (u_m0 u) k = Some n -> dpos k (u_out u) <> [] -> hd 0 (dpos k (u_out u)) = n)) /\
+  Forall (fun d => e_seq (d_ev d) < d_wm d /\
+                   nth_error (sb_log (sb_run c bg ops) (e_pid (d_ev d))) (e_seq (d_ev d)) = Some (d_ev d)) (u_out u).
+Proof.
+  intros Hb Hw Hu. destruct (sbinv_run c Hb bg ops Hw) as (_ & _ & Hs). destruct (Hs u Hu) as [[I1 I2 I3 I4 I5 I6 I7] _ _ _ _].
+  split.
+  - intros k Hk. assert (Hk' : kkind (u_m u) k = true) by (unfold kkind, key_kind in *; rewrite I1; exact Hk).
+    destruct (I7 k Hk') as [K1 K2 K3 K4]. split; [exact K1|]. intros n Hn. apply K4. apply sub_start_track. exact Hn.
+  - eapply Forall_impl; [|exact I5]. cbn. intros d (A & _ & _ & D). auto.
+Qed.
+
+(* at most `window` records are unacknowledged after every send; cursors count the records *)
+Theorem sub_window c bg ops u :
+  c_brk c = true -> ops_wf ops -> sb_sub (sb_run c bg ops) = Some u ->
+  Forall (fun d => unacked_after d <= u_win u) (u_out u) /\
+  (forall i d, nth_error (rev (u_out u)) i = Some d -> d_cur d = i) /\ u_cur u = length (u_out u).
+Proof.
+  intros Hb Hw Hu. destruct (sbinv_run c Hb bg ops Hw) as (_ & _ & Hs). destruct (Hs u Hu) as [[I1 I2 I3 I4 I5 I6 I7] _ _ _ _].
+  split; [|split; assumption]. eapply Forall_impl; [|exact I5]. cbn. intros d (_ & _ & C & _). exact C.
+Qed.
+
+Lemma slice_nil_inv {A} (l : list A) a b : slice l a b = [] -> a <= b -> b <= length l -> a = b.
+Proof.
+  intros H Hab Hb. apply (f_equal (@length A)) in H. unfold slice in H. rewrite firstn_length, skipn_length in H. cbn in H. lia.
+Qed.
+
+(* when the task has nothing left to do, everything of its keys below the broadcast position has been
+   delivered (from the explicit start position, resp. from the first delivered record) *)
+Theorem sub_idle_complete c bg ops u :
+  c_brk c = true -> ops_wf ops -> let st := sb_run c bg ops in sb_sub st = Some u -> sub_idle u ->
+  forall k first, key_kind (u_m0 u) k = true -> kpid c k < c_np c ->
+    (sub_start (u_m0 u) k = Some first \/ (dpos k (u_out u) <> [] /\ first = hd 0 (dpos k (u_out u)))) ->
+    forall e, In e (klog c st k) -> first <= kpos k e -> e_seq e < sb_nb st (kpid c k) -> In e (map d_ev (u_out u)).
+Proof.
+  intros Hb Hwf st Hu (Hph & Hh & Hq & Hlag) k first Hk Hnp Hfirst e Hin Hge Hlt.
+  destruct (sbinv_run c Hb bg ops Hwf) as (Hl & Hw & Hs). fold st in Hl, Hw, Hs.
+  destruct (Hs u Hu) as [[I1 I2 I3 I4 I5 I6 I7] _ _ _ Iqe].
+  assert (Hk' : kkind (u_m u) k = true) by (unfold kkind, key_kind in *; rewrite I1; exact Hk).
+  destruct (I7 k Hk') as [[a0 K1] K2 K3 K4].
+  destruct (Iqe Hlag (kpid c k)) as (a & Ha & Hsl & Hc).
+  unfold eff_q in Hsl. rewrite Hh, Hq in Hsl. cbn in Hsl. symmetry in Hsl.
+  apply slice_nil_inv in Hsl; [|exact Ha|destruct (Hw (kpid c k)); lia]. subst a.
+  destruct (dpos k (u_out u)) as [|x l] eqn:Ed.
+  - exfalso. destruct Hfirst as [Hst|[Hne _]]; [|congruence].
+    apply sub_start_track in Hst. rewrite <- (K3 eq_refl Hnp) in Hst.
+    specialize (Hc k first Hk' eq_refl Hst). unfold bound_of in Hc. rewrite Hph in Hc. cbn in Hc.
+    specialize (Hc e Hin Hlt). lia.
+  - assert (Hne : x :: l <> []) by discriminate.
+    specialize (K2 Hne).
+    assert (Hf : first = a0).
+    { destruct Hfirst as [Hst|[_ ->]]; [|rewrite K1; reflexivity].
+      rewrite <- (K4 first (proj1 (sub_start_track _ _ _) Hst) Hne). rewrite K1. reflexivity. }
+    rewrite K1 in K2. rewrite last_seq in K2 by (cbn; lia).
+    specialize (Hc k _ Hk' eq_refl K2). unfold bound_of in Hc. rewrite Hph in Hc. cbn in Hc. specialize (Hc e Hin Hlt).
+    assert (Hind : In (kpos k e) (dpos k (u_out u))).
+    { rewrite Ed, K1. apply in_seq. cbn [length] in *. lia. }
+    unfold dpos in Hind. apply in_map_iff in Hind. destruct Hind as (d & Hd1 & Hd2). apply filter_In in Hd2. destruct Hd2 as [Hd2 Hd3].
+    apply in_rev in Hd2. apply in_map_iff. exists d. split; [|exact Hd2].
+    rewrite Forall_forall in I5. destruct (I5 d Hd2) as (_ & _ & _ & D).
+    destruct (klog_in c st k e Hl Hin) as (_ & _ & _ & N).
+    assert (Hkp : kpid c k = e_pid (d_ev d)).
+    { destruct k as [p|s]; cbn in *; [apply Nat.eqb_eq in Hd3; congruence|].
+      apply Nat.eqb_eq in Hd3. destruct (proj1 (Hl _) _ _ D) as (_ & _ & _ & X). congruence. }
+    pose proof (klog_of_log c st k _ _ (d_ev d) Hl D Hd3 Hkp) as N2. rewrite Hd1 in N2. congruence.
+Qed.
+
+(* the matcher and the window of the subscription are those of the Subscribe operation *)
+Lemma fold_push_fields c evs : forall u, let u' := fold_left (q_push c) evs u in u_m0 u' = u_m0 u /\ u_win u' = u_win u.
+Proof.
+  induction evs as [|e r IH]; intros u; cbn; [auto|]. destruct (IH (q_push c u e)) as [A B].
+  destruct (q_push_fields c u e) as (F1 & _ & F3 & _). split; congruence.
+Qed.
+
+Lemma enter_history_fields c st u : u_m0 (enter_history c st u) = u_m0 u /\ u_win (enter_history c st u) = u_win u.
+Proof. unfold enter_history. destruct (start_history c st (u_m u)). cbn. auto. Qed.
+
+Lemma step_origin c st o u' :
+  sb_sub (sb_step c st o) = Some u' ->
+  (exists u, sb_sub st = Some u /\ u_m0 u' = u_m0 u /\ u_win u' = u_win u) \/
+  (sb_sub st = None /\ exists m w, o = OSubscribe m w /\ u_m0 u' = m /\ u_win u' = w).
+Proof.
+  destruct o as [p sids|p w|p|m w|a|k n| |k|k| |]; cbn [sb_step]; intros H.
+  - destruct ((p <? c_np c) && forallb (fun s => spid c s =? p) sids); cbn in H; left; exists u'; auto.
+  - cbn in H. left. exists u'. auto.
+  - destruct (sb_sub st) as [u|] eqn:Eu; cbn in H.
+    + injection H as <-. left. exists u. split; [reflexivity|]. apply fold_push_fields.
+    + destruct (sb_bg st); cbn in H; congruence.
+  - destruct (sb_sub st) as [u|] eqn:Eu; [left; exists u'; rewrite Eu in H; auto|].
+    cbn in H. injection H as <-. right. split; [reflexivity|]. exists m, w. split; [reflexivity|].
+    apply (enter_history_fields c st (mkSub m m w 0 None PLive None [] 0 [] [])).
+  - destruct (sb_sub st) as [u|] eqn:Eu; [|rewrite Eu in H; discriminate]. left. exists u. split; [reflexivity|].
+    destruct (a <? u_cur u); cbn in H; [injection H as <-; auto|rewrite Eu in H; injection H as <-; auto].
+  - destruct (sb_sub st) as [u|] eqn:Eu; [|rewrite Eu in H; discriminate]. left. exists u. split; [reflexivity|].
+    destruct (u_ph u) as [pend [cur|]|]; try (rewrite Eu in H; injection H as <-; auto).
+    destruct (find_it k pend) as [it|]; [|rewrite Eu in H; injection H as <-; auto].
+    destruct (it_done it); [rewrite Eu in H; injection H as <-; auto|]. cbn in H. injection H as <-. auto.
+  - destruct (sb_sub st) as [u|] eqn:Eu; [|rewrite Eu in H; discriminate]. left. exists u. split; [reflexivity|].
+    destruct (u_ph u) as [pend [[k bend]|]|]; try (rewrite Eu in H; injection H as <-; auto).
+    destruct (find_it k pend) as [it|]; [|cbn in H; injection H as <-; auto].
+    destruct (bend <=? h_pos it); [cbn in H; injection H as <-; auto|].
+    destruct (nth_error (klog c st k) (h_pos it)) as [e|]; [|cbn in H; injection H as <-; auto].
+    destruct (e_seq e <? sb_wm st (e_pid e)).
+    + destruct (win_open u); [cbn in H; injection H as <-; auto|rewrite Eu in H; injection H as <-; auto].
+    + destruct k; [|destruct (c_brk c)]; cbn in H; injection H as <-; auto.
+  - destruct (sb_sub st) as [u|] eqn:Eu; [|rewrite Eu in H; discriminate]. left. exists u. split; [reflexivity|].
+    destruct (u_ph u) as [pend [cur|]|]; try (rewrite Eu in H; injection H as <-; auto).
+    destruct (find_it k pend) as [it|]; [|rewrite Eu in H; injection H as <-; auto].
+    destruct (it_done it); [cbn in H; injection H as <-; auto|rewrite Eu in H; injection H as <-; auto].
+  - destruct (sb_sub st) as [u|] eqn:Eu; [|rewrite Eu in H; discriminate]. left. exists u. split; [reflexivity|].
+    destruct (u_ph u) as [pend cur|]; [|rewrite Eu in H; injection H as <-; auto].
+    destruct (find_it k pend) as [it|]; [cbn in H; injection H as <-; auto|rewrite Eu in H; injection H as <-; auto].
+  - destruct (sb_sub st) as [u|] eqn:Eu; [|rewrite Eu in H; discriminate]. left. exists u. split; [reflexivity|].
+    destruct (u_ph u) as [pend cur|]; [rewrite Eu in H; injection H as <-; auto|].
+    destruct (u_hold u); [rewrite Eu in H; injection H as <-; auto|].
+    destruct (0 <? u_lagn u).
+    + cbn in H. injection H as <-. apply (enter_history_fields c st (mkSub (u_m0 u) (u_m u) (u_win u) (u_cur u) (u_ack u) PLive None (u_q u) 0 (u_out u) (u_lagn u :: u_lags u))).
+    + destruct (u_q u); [rewrite Eu in H; injection H as <-; auto|cbn in H; injection H as <-; auto].
+  - destruct (sb_sub st) as [u|] eqn:Eu; [|rewrite Eu in H; discriminate]. left. exists u. split; [reflexivity|].
+    destruct (u_ph u) as [pend cur|]; [rewrite Eu in H; injection H as <-; auto|].
+    destruct (u_hold u); [|rewrite Eu in H; injection H as <-; auto].
+    destruct (win_open u); [cbn in H; injection H as <-; auto|rewrite Eu in H; injection H as <-; auto].
+Qed.
+
+Theorem sub_origin c bg ops u :
+  sb_sub (sb_run c bg ops) = Some u -> exists m w, In (OSubscribe m w) ops /\ u_m0 u = m /\ u_win u = w.
+Proof.
+  unfold sb_run. revert u. induction ops as [|o ops IH] using rev_ind; intros u H; [discriminate|].
+  rewrite fold_left_app in H. cbn in H. apply step_origin in H. destruct H as [(u0 & H0 & A & B)|(_ & m & w & -> & A & B)].
+  - destruct (IH u0 H0) as (m & w & Hin & C & D). exists m, w. split; [apply in_or_app; auto|]. split; congruence.
+  - exists m, w. split; [apply in_or_app; right; left; reflexivity|auto].
+Qed.
+
+(* ---- the stream reader before commit 6d8d4bd: a gap *)
+Definition cfg_orig : sbcfg := mkSbCfg 4 4 1024 false.
+Definition cfg_now : sbcfg := mkSbCfg 4 4 1024 true.
+Definition w_stream_gap : list sbop :=
+  [OAppend 0 [0]; OAppend 0 [0]; OAppend 0 [0]; OAdvance 0 1;
+   OSubscribe (MStream 0 (Some 0)) 10;
+   OHistBatch (KS 0) 2; OHistEvent; OHistEvent;       (* version 0 goes out, version 1 is not confirmed: `break` *)
+   OAdvance 0 3;                                       (* the watermark moves while the next batch is fetched *)
+   OHistBatch (KS 0) 1; OHistEvent].                   (* version 2 goes out: version 1 was skipped *)
+
+Lemma stream_gap_refuted :
+  exists u, sb_sub (sb_run cfg_orig false w_stream_gap) = Some u /\ dpos (KS 0) (u_out u) = [0; 2] /\
+            Forall (fun d => e_seq (d_ev d) < d_wm d) (u_out u).
+Proof. eexists. split; [vm_compute; reflexivity|]. split; [vm_compute; reflexivity|]. vm_compute. repeat constructor. Qed.
+
+Lemma stream_gap_fixed :
+  exists u, sb_sub (sb_run cfg_now false (w_stream_gap ++ [OHistDrop (KS 0); OBcast 0; ORecv; ORecv; OSend; ORecv; OSend])) = Some u /\
+            dpos (KS 0) (u_out u) = [0; 1; 2].
+Proof. eexists. split; vm_compute; reflexivity. Qed.
